@@ -102,6 +102,8 @@ struct Inner<C> {
     control: Pipeline<C>,
     sink: Rc<MqttShared>,
     inflight: RefCell<HashSet<NonZeroU16>>,
+    /// QoS 2 packet ids waiting for PUBREL
+    inflight_rel: RefCell<HashSet<NonZeroU16>>,
 }
 
 impl<T, C, E> Dispatcher<T, C, E>
@@ -119,7 +121,12 @@ where
         Self {
             cfg,
             publish,
-            inner: Rc::new(Inner { sink, control, inflight: RefCell::new(HashSet::default()) }),
+            inner: Rc::new(Inner {
+                sink,
+                control,
+                inflight: RefCell::new(HashSet::default()),
+                inflight_rel: RefCell::new(HashSet::default()),
+            }),
             _t: PhantomData,
         }
     }
@@ -263,7 +270,7 @@ where
                 }
             }
             Decoded::Packet(Packet::PublishRelease { packet_id }, _) => {
-                if self.inner.inflight.borrow().contains(&packet_id) {
+                if self.inner.inflight_rel.borrow_mut().remove(&packet_id) {
                     self.inner.control(ProtocolMessage::pubrel(packet_id)).await
                 } else {
                     Err(ProtocolError::unexpected_packet(
@@ -360,6 +367,7 @@ where
 
             if let Some(packet_id) = packet_id {
                 if qos2 {
+                    inner.inflight_rel.borrow_mut().insert(packet_id);
                     Ok(Some(Encoded::Packet(Packet::PublishReceived { packet_id })))
                 } else {
                     inner.inflight.borrow_mut().remove(&packet_id);
